@@ -903,6 +903,149 @@ func deadlineScenario(c *ctx, r *vk.Rand, variant int) {
 	_ = delayed
 }
 
+// mixedDeadlineStall: the peer stops answering while requests with different
+// deadlines are pending (reads 1 s, writes 20 s). When the first read exceeds
+// its deadline the connection is declared failed: every other pending request
+// must then fail with it (about 2 s later, the client's grace) instead of
+// being left to its own, much later deadline; the failure is reported; calls
+// made afterwards fail at once. The bound used for "with it" is 12 s, four
+// times what the unchanged client needs and well below the writes' own 20 s;
+// a scheduling gap seen by a heartbeat goroutine makes the case inconclusive.
+func mixedDeadlineStall(c *ctx, r *vk.Rand) {
+	a, b, err := tcpPair()
+	if err != nil {
+		c.res.Inconclusive = append(c.res.Inconclusive, "tcp pair: "+err.Error())
+		return
+	}
+	defer a.Close()
+	defer b.Close()
+	types.RPCReadTimeout, types.RPCWriteTimeout = time.Second, 20*time.Second
+	rpc.SetRPCTimeout()
+	defer func() {
+		types.RPCReadTimeout, types.RPCWriteTimeout = time.Second, time.Second
+		rpc.SetRPCTimeout()
+	}()
+	closeChan := make(chan struct{}, 64)
+	cl := rpc.NewClient(a, closeChan)
+	answer := r.Range(0, 40) // requests answered before the peer goes silent
+	go func() {
+		n := 0
+		for {
+			f, err := readFrame(b)
+			if err != nil {
+				return
+			}
+			n++
+			if n > answer {
+				continue // read and never answer
+			}
+			out := &Frame{Magic: magic, Seq: f.Seq, Type: rpc.TypeResponse, Offset: f.Offset}
+			if f.Type == rpc.TypeRead {
+				out.Data = prfBytes(f.Offset, f.Size, 5)
+				out.Size = f.Size
+			} else {
+				out.Size = int64(len(f.Data))
+			}
+			writeFrame(b, out)
+		}
+	}()
+	for i := 0; i < answer; i++ {
+		if _, err := cl.WriteAt(prfBytes(int64(i)*512, 512, 6), int64(i)*512); err != nil {
+			c.fail("call-failed-without-fault", fmt.Sprintf("warm-up write failed: %v", err), nil)
+			return
+		}
+	}
+	var maxGap int64
+	hbStop := make(chan struct{})
+	go func() {
+		last := time.Now()
+		for {
+			select {
+			case <-hbStop:
+				return
+			case <-time.After(20 * time.Millisecond):
+			}
+			if g := int64(time.Since(last)); g > atomic.LoadInt64(&maxGap) {
+				atomic.StoreInt64(&maxGap, g)
+			}
+			last = time.Now()
+		}
+	}()
+	defer close(hbStop)
+	W, R := r.Range(8, 96), r.Range(1, 4)
+	type rec struct {
+		op   string
+		took time.Duration
+		err  error
+	}
+	out := make(chan rec, W+R)
+	t0 := time.Now()
+	for g := 0; g < W; g++ {
+		go func(g int) {
+			t := time.Now()
+			_, err := cl.WriteAt(prfBytes(int64(g)*4096, 512, 7), int64(1<<20+g*4096))
+			out <- rec{"write", time.Since(t), err}
+		}(g)
+	}
+	time.Sleep(time.Duration(r.Range(50, 400)) * time.Millisecond)
+	for g := 0; g < R; g++ {
+		go func(g int) {
+			t := time.Now()
+			_, err := cl.ReadAt(make([]byte, 512), int64(g)*512)
+			out <- rec{"read", time.Since(t), err}
+		}(g)
+	}
+	cfg := map[string]interface{}{"pending_writes": W, "reads": R, "read_deadline": "1s", "write_deadline": "20s", "answered_before_stall": answer}
+	var slow, okCalls int
+	var worst time.Duration
+	for i := 0; i < W+R; i++ {
+		select {
+		case rc := <-out:
+			if rc.err == nil {
+				okCalls++
+			}
+			if rc.op == "write" && rc.took > 12*time.Second {
+				slow++
+			}
+			if rc.took > worst {
+				worst = rc.took
+			}
+		case <-time.After(90 * time.Second):
+			c.fail("hang:mixed-deadline-stall", fmt.Sprintf("%d of %d calls still pending 90 s after the peer went silent (read deadline 1 s, write deadline 20 s)", W+R-i, W+R), cfg)
+			return
+		}
+	}
+	c.res.Count("rpc_calls", int64(W+R+answer))
+	c.res.Count("mixed_deadline_cases", 1)
+	c.res.Sig(fmt.Sprintf("mixed:W%d:R%d", bucket(int64(W)), R))
+	cfg["slowest_call"] = worst.String()
+	cfg["total"] = time.Since(t0).String()
+	if g := time.Duration(atomic.LoadInt64(&maxGap)); g > 2*time.Second {
+		c.res.Inconclusive = append(c.res.Inconclusive, fmt.Sprintf("mixed-deadline stall: the harness itself was not scheduled for %v", g))
+		return
+	}
+	if okCalls > 0 {
+		c.fail("call-succeeded-without-reply", fmt.Sprintf("%d calls returned success although the peer never answered them", okCalls), cfg)
+		return
+	}
+	if slow > 0 {
+		c.fail("pending-requests-left-to-their-own-deadline", fmt.Sprintf("after a read exceeded its 1 s deadline on a silent connection, %d of %d pending writes kept waiting for more than 12 s (their own deadline is 20 s) instead of failing with the connection; slowest call %v", slow, W, worst), cfg)
+		return
+	}
+	time.Sleep(100 * time.Millisecond)
+	if len(closeChan) == 0 {
+		c.fail("failure-not-reported:mixed-deadline-stall", "a request exceeded its deadline but nothing was sent on the close channel", cfg)
+		return
+	}
+	t := time.Now()
+	perr := cl.Ping()
+	if perr == nil || time.Since(t) > 10*time.Second {
+		c.fail("call-after-failure-not-failed-at-once", fmt.Sprintf("a ping issued after the connection was declared failed returned %v after %v", perr, time.Since(t)), cfg)
+		return
+	}
+	c.res.Count("failures_detected", 1)
+}
+
 // RunWorker runs `cases` scenarios of all four parts.
 func RunWorker(prop string, seed uint64, worker, cases int, out string, thorough bool) error {
 	res := vk.NewResult("rpcsim")
@@ -910,7 +1053,7 @@ func RunWorker(prop string, seed uint64, worker, cases int, out string, thorough
 	types.RPCWriteTimeout = time.Second
 	rpc.SetRPCTimeout()
 	quietLogs()
-	faults := []string{"", "", "stall", "close", "reset", "garbage", "late", "fin", "deadline"}
+	faults := []string{"", "", "stall", "close", "reset", "garbage", "late", "fin", "deadline", "mixed"}
 	for i := 0; i < cases; i++ {
 		cs := vk.Mix(seed, prop, fmt.Sprint(worker), fmt.Sprint(i))
 		r := vk.NewRand(cs)
@@ -921,12 +1064,14 @@ func RunWorker(prop string, seed uint64, worker, cases int, out string, thorough
 		case 1:
 			matchScenario(c, r, "")
 		case 2:
-			f := faults[2+(worker+i/4)%7]
+			f := faults[2+(worker+i/4)%8]
 			if thorough && worker == 2 && i == 2 {
 				f = "slow-ops-stall"
 			}
 			if f == "deadline" {
-				deadlineScenario(c, r, (worker/7)*2+i/4)
+				deadlineScenario(c, r, (worker/8)*2+i/4)
+			} else if f == "mixed" {
+				mixedDeadlineStall(c, r)
 			} else {
 				matchScenario(c, r, f)
 			}
